@@ -120,60 +120,65 @@ class _FunctionCall(object):
         initial_ctx.transport.type = NullServer.transport
         initial_ctx.locale = self._locale
 
-        contexts = self.app.in_protocol.generate_method_contexts(initial_ctx)
+        # whatever happens below, the call ends here for the direct caller: its
+        # context gets closed also when the error is raised to them.
+        p_ctx = initial_ctx
+        try:
+            contexts = self.app.in_protocol.generate_method_contexts(initial_ctx)
 
-        retval = None
-        logger.warning("%s start request %s" % (_big_header, _big_footer))
+            retval = None
+            logger.warning("%s start request %s" % (_big_header, _big_footer))
 
-        if self._async:
-            from twisted.internet.defer import Deferred
+            if self._async:
+                from twisted.internet.defer import Deferred
 
-        for cnt, ctx in enumerate(contexts):
-            # this reconstruction is quite costly. I wonder whether it's a
-            # problem though.
+            for cnt, ctx in enumerate(contexts):
+                # this reconstruction is quite costly. I wonder whether it's a
+                # problem though.
 
-            _type_info = ctx.descriptor.in_message._type_info
-            ctx.in_object = [None] * len(_type_info)
-            for i in range(len(args)):
-                ctx.in_object[i] = args[i]
+                _type_info = ctx.descriptor.in_message._type_info
+                ctx.in_object = [None] * len(_type_info)
+                for i in range(len(args)):
+                    ctx.in_object[i] = args[i]
 
-            for i, k in enumerate(_type_info.keys()):
-                val = kwargs.get(k, None)
-                if val is not None:
-                    ctx.in_object[i] = val
+                for i, k in enumerate(_type_info.keys()):
+                    val = kwargs.get(k, None)
+                    if val is not None:
+                        ctx.in_object[i] = val
 
-            if ctx.descriptor.body_style == BODY_STYLE_BARE:
-                ctx.in_object = ctx.descriptor.in_message \
-                                      .get_serialization_instance(ctx.in_object)
+                if ctx.descriptor.body_style == BODY_STYLE_BARE:
+                    ctx.in_object = ctx.descriptor.in_message \
+                                          .get_serialization_instance(ctx.in_object)
 
-            if cnt == 0:
-                p_ctx = ctx
-            else:
-                ctx.descriptor.aux.initialize_context(ctx, p_ctx, error=None)
-
-            # do
-            # logging.getLogger('spyne.server.null').setLevel(logging.CRITICAL)
-            # to hide the following
-            logger.warning("%s start context %s" % (_small_header,
-                                                                 _small_footer))
-            logger.info("%r.%r" % (ctx.service_class,
-                                                       ctx.descriptor.function))
-            try:
-                self.app.process_request(ctx)
-            finally:
-                logger.warning("%s  end context  %s" % (_small_header,
-                                                                 _small_footer))
-
-            if cnt == 0:
-                if self._async and isinstance(ctx.out_object[0], Deferred):
-                    retval = ctx.out_object[0]
-                    retval.addCallback(_cb_async, ctx, cnt, self)
-
+                if cnt == 0:
+                    p_ctx = ctx
                 else:
-                    retval = _cb_sync(ctx, cnt, self)
+                    ctx.descriptor.aux.initialize_context(ctx, p_ctx, error=None)
 
-        if not self._async:
-            p_ctx.close()
+                # do
+                # logging.getLogger('spyne.server.null').setLevel(logging.CRITICAL)
+                # to hide the following
+                logger.warning("%s start context %s" % (_small_header,
+                                                                     _small_footer))
+                logger.info("%r.%r" % (ctx.service_class,
+                                                           ctx.descriptor.function))
+                try:
+                    self.app.process_request(ctx)
+                finally:
+                    logger.warning("%s  end context  %s" % (_small_header,
+                                                                     _small_footer))
+
+                if cnt == 0:
+                    if self._async and isinstance(ctx.out_object[0], Deferred):
+                        retval = ctx.out_object[0]
+                        retval.addCallback(_cb_async, ctx, cnt, self)
+
+                    else:
+                        retval = _cb_sync(ctx, cnt, self)
+
+        finally:
+            if not self._async:
+                p_ctx.close()
 
         logger.warning("%s  end request  %s" % (_big_header, _big_footer))
 
